@@ -33,3 +33,222 @@ def int_vec(vals):
             a[i] = v
         return npenv.wrap(a)
     return np.array(vals, dtype=np.int64)
+
+
+# ---------------------------------------------------------------------------------------
+# denotations: pyttb object -> object ndarray of cell values, computed from the stored
+# components with plain loops (no pyttb conversion code is called)
+
+
+def zeros(shape):
+    a = np.empty(tuple(shape), dtype=object)
+    a[...] = 0.0
+    return a
+
+
+def cells(arr):
+    """ndarray -> object ndarray copy (cells as python scalars / symbolic scalars)"""
+    arr = np.asarray(arr)
+    out = np.empty(arr.shape, dtype=object)
+    for idx in np.ndindex(*arr.shape):
+        out[idx] = arr[idx]
+    return out
+
+
+def den(x):
+    import pyttb as ttb
+    if isinstance(x, ttb.tensor):
+        return cells(x.data)
+    if isinstance(x, ttb.sptensor):
+        out = zeros(x.shape)
+        subs = np.asarray(x.subs)
+        vals = np.asarray(x.vals)
+        for r in range(subs.shape[0] if subs.size else 0):
+            idx = tuple(int(v) for v in subs[r])
+            out[idx] = out[idx] + vals[r, 0]
+        return out
+    if isinstance(x, ttb.ktensor):
+        return den_kruskal(x.weights, x.factor_matrices)
+    if isinstance(x, ttb.ttensor):
+        return den_tucker(den(x.core), x.factor_matrices)
+    if isinstance(x, ttb.sumtensor):
+        out = None
+        for p in x.parts:
+            d = den(p)
+            out = d if out is None else out + d
+        return out
+    if isinstance(x, ttb.tenmat):
+        return den_tenmat(cells(x.data), x.tshape, x.rindices, x.cindices)
+    if isinstance(x, ttb.sptenmat):
+        m = zeros(x.shape)
+        subs = np.asarray(x.subs)
+        vals = np.asarray(x.vals)
+        for r in range(subs.shape[0] if subs.size else 0):
+            i, j = int(subs[r, 0]), int(subs[r, 1])
+            m[i, j] = m[i, j] + vals[r, 0]
+        return den_tenmat(m, x.tshape, x.rdims, x.cdims)
+    if isinstance(x, np.ndarray):
+        return cells(x)
+    raise TypeError(type(x))
+
+
+def den_kruskal(weights, factors):
+    shape = tuple(int(f.shape[0]) for f in factors)
+    R = len(weights)
+    out = zeros(shape)
+    for idx in np.ndindex(*shape):
+        s = 0.0
+        for r in range(R):
+            t = weights[r]
+            for n, i in enumerate(idx):
+                t = t * factors[n][i, r]
+            s = s + t
+        out[idx] = s
+    return out
+
+
+def den_tucker(core_cells, factors):
+    shape = tuple(int(f.shape[0]) for f in factors)
+    out = zeros(shape)
+    for idx in np.ndindex(*shape):
+        s = 0.0
+        for j in np.ndindex(*core_cells.shape):
+            t = core_cells[j]
+            for n, i in enumerate(idx):
+                t = t * factors[n][i, j[n]]
+            s = s + t
+        out[idx] = s
+    return out
+
+
+def mat_index(idx, shape, rdims, cdims):
+    """(row, col) of tensor index idx in the matricization with row modes rdims and column modes
+    cdims: within each side the first listed mode varies fastest"""
+    r, stride = 0, 1
+    for m in rdims:
+        r += idx[m] * stride
+        stride *= shape[m]
+    c, stride = 0, 1
+    for m in cdims:
+        c += idx[m] * stride
+        stride *= shape[m]
+    return r, c
+
+
+def den_tenmat(mat_cells, tshape, rdims, cdims):
+    tshape = tuple(int(s) for s in tshape)
+    rdims = [int(v) for v in rdims]
+    cdims = [int(v) for v in cdims]
+    out = zeros(tshape)
+    for idx in np.ndindex(*tshape):
+        r, c = mat_index(idx, tshape, rdims, cdims)
+        out[idx] = mat_cells[r, c]
+    return out
+
+
+def ref_tenmat(t_cells, rdims, cdims):
+    shape = t_cells.shape
+    nr = int(np.prod([shape[m] for m in rdims])) if len(rdims) else 1
+    nc = int(np.prod([shape[m] for m in cdims])) if len(cdims) else 1
+    out = zeros((nr, nc))
+    for idx in np.ndindex(*shape):
+        r, c = mat_index(idx, shape, rdims, cdims)
+        out[r, c] = t_cells[idx]
+    return out
+
+
+def count_nonzero_cells(c):
+    """number of cells that are non-zero (decides each symbolic cell)"""
+    return sum(1 for v in c.ravel().tolist() if (v != 0))
+
+
+# ---------------------------------------------------------------------------------------
+# well-formedness monitor for sparse results (C06)
+
+
+def wellformed(E, S, label, filtered=True):
+    """structure: subs integer nnz x N inside shape, pairwise distinct rows; vals nnz x 1;
+    with filtered=True every stored value must be provably non-zero."""
+    import pyttb as ttb
+    subs = np.asarray(S.subs)
+    vals = np.asarray(S.vals)
+    if isinstance(S, ttb.sptenmat):
+        shape = S.shape
+    else:
+        shape = S.shape
+    n = len(shape)
+    nnz = vals.shape[0] if vals.ndim >= 1 and vals.size else 0
+    if nnz == 0:
+        E.true(subs.size == 0, f"{label}: empty vals but subs has {subs.size} entries")
+        E.true(S.nnz == 0, f"{label}: nnz reported {S.nnz} for empty tensor")
+        return
+    ok = (subs.ndim == 2 and subs.shape == (nnz, n) and vals.ndim == 2 and vals.shape == (nnz, 1))
+    E.true(ok, f"{label}: one value per stored subscript (subs {subs.shape}, vals {vals.shape}, order {n})")
+    if not ok:
+        return
+    E.true(subs.dtype.kind in "iu", f"{label}: integer subscripts (dtype {subs.dtype})")
+    inside = all(0 <= int(subs[r, k]) < int(shape[k]) for r in range(nnz) for k in range(n)) if subs.dtype.kind in "iu" else False
+    E.true(inside, f"{label}: subscripts inside shape {tuple(shape)}: {subs.tolist()}")
+    rows = [tuple(r) for r in subs.tolist()]
+    E.true(len(set(rows)) == len(rows), f"{label}: distinct subscripts: {rows}")
+    E.true(S.nnz == nnz, f"{label}: nnz == stored entries")
+    if filtered:
+        for r in range(nnz):
+            E.true(vals[r, 0] != 0, f"{label}: no explicit zero stored")
+
+
+# ---------------------------------------------------------------------------------------
+# builders
+
+
+def dense(E, name, shape, **kw):
+    import pyttb as ttb
+    return ttb.tensor(E.reals(name, shape, **kw), copy=False) if len(shape) else None
+
+
+def sparse_direct(E, name, shape, positions, order=None):
+    """sptensor built directly from components: stored values are symbolic and assumed non-zero
+    (representation invariant), at the given positions, in the given stored order"""
+    import pyttb as ttb
+    k = len(positions)
+    vals = [E.real(f"{name}{i}", nonzero=True) for i in range(k)]
+    order = list(range(k)) if order is None else list(order)
+    subs = np.array([positions[i] for i in order], dtype=np.int64).reshape(k, len(shape))
+    if E.sym:
+        v = npenv.obj_array([vals[i] for i in order], (k, 1))
+    else:
+        v = np.array([vals[i] for i in order], dtype=float).reshape(k, 1)
+    return ttb.sptensor(subs, v, tuple(shape), copy=False), {tuple(positions[i]): vals[i] for i in range(k)}
+
+
+def sparse_ref(shape, posvals):
+    out = zeros(shape)
+    for p, v in posvals.items():
+        out[p] = v
+    return out
+
+
+def all_positions(shape):
+    return [idx for idx in np.ndindex(*shape)]
+
+
+def orders(k, limit=None):
+    ps = list(itertools.permutations(range(k)))
+    return ps if limit is None else ps[:limit]
+
+
+def kruskal(E, name, shape, R, weights=True):
+    import pyttb as ttb
+    fs = [E.reals(f"{name}U{n}_", (s, R)) for n, s in enumerate(shape)]
+    if weights:
+        w = E.reals(f"{name}w", (R,))
+    else:
+        w = E.const(np.ones(R))
+    return ttb.ktensor(fs, w, copy=False)
+
+
+def tucker(E, name, shape, core_shape):
+    import pyttb as ttb
+    core = ttb.tensor(E.reals(f"{name}G", core_shape), copy=False)
+    fs = [E.reals(f"{name}U{n}_", (s, c)) for n, (s, c) in enumerate(zip(shape, core_shape))]
+    return ttb.ttensor(core, fs, copy=False)
